@@ -163,7 +163,8 @@ Step(w, o, s, e) ==
     [] e.e = "CRASH" -> [FinishCur(w, s) EXCEPT !.crashes = @ + 1]
     [] e.e = "SP" -> IF e.s = "fail" THEN [s EXCEPT !.spawnFailed = @ + 1] ELSE s
     [] e.e = "LOOK" -> IF s.role = "child" THEN [s EXCEPT !.lookalikes = @ + 1] ELSE s
-    [] e.e = "CUT" -> [s EXCEPT !.reportCut = @ + 1]
+    \* a report that lost nothing but its final line end has arrived completely
+    [] e.e = "CUT" -> IF e.s = "eol" THEN s ELSE [s EXCEPT !.reportCut = @ + 1]
     [] OTHER -> s
 
 (* ----- end-of-trace clauses ------------------------------------------------*)
